@@ -79,6 +79,9 @@ OpEncodeCbSweep(slot, syn, mode) == [a |-> "EncodeCbSweep", slot |-> slot, syn |
 \* C14: the call repeated with the k-th allocation of the library failing, for every k; whatever it returns is released
 OpAllocSweepEnc(slot, syn) == [a |-> "AllocSweepEnc", slot |-> slot, syn |-> syn]
 OpAllocSweepDec(syn, bytes) == [a |-> "AllocSweepDec", syn |-> syn, bytes |-> bytes]      \* bytes: a valid encoding of the session value
+\* every proper prefix of a valid encoding (wire: the octets the preceding Encode produced) decoded and freed
+OpTruncSweep(syn, bytes) == [a |-> "TruncSweep", syn |-> syn, bytes |-> bytes, wire |-> FALSE]
+OpTruncSweepW(syn) == [a |-> "TruncSweep", syn |-> syn, bytes |-> <<>>, wire |-> TRUE]
 OpEncodeBuf(slot, syn, rel) == [a |-> "EncodeBuf", slot |-> slot, syn |-> syn, rel |-> rel]          \* asn_encode_to_buffer, size relative to the full length
 OpBuildZero(slot) == [a |-> "BuildZero", slot |-> slot]     \* a zero-initialised structure (CHOICE unselected, members absent)
 \* the octets another build of the same module (other code-generation options, C13) produced for the
@@ -142,7 +145,7 @@ GenObs == [bytes |-> OpaqueWire, consumed |-> 0, allocfailed |-> 0, rc |-> "FAIL
 Vouched(o) == o.st = "val" /\ (o.sess \/ (~o.seen /\ Valid(RawEnv, TypeOf(sc), o.v)))
 \* did an armed allocation failure fire inside this call?  (logged by the allocator wrapper)
 Fired(obs) == fault > 0 /\ obs.allocfailed > 0
-Lib(op) == op.a \in {"Encode", "EncodeCb", "EncodeBuf", "EncodeCbSweep", "AllocSweepEnc", "AllocSweepDec", "Decode", "DecodeLit", "DecodeAny", "DecodeInto", "DecodeCall",
+Lib(op) == op.a \in {"Encode", "EncodeCb", "EncodeBuf", "EncodeCbSweep", "AllocSweepEnc", "AllocSweepDec", "TruncSweep", "Decode", "DecodeLit", "DecodeAny", "DecodeInto", "DecodeCall",
                      "Free", "Reset", "Print", "Check", "Compare"}
 \* what a decode leaves in the slot when the specification cannot predict it: the logged value if
 \* the decoder said OK and the projection is well-formed, else an allocated structure of unknown content
@@ -170,7 +173,7 @@ Step(obs) ==
           [] op.a = "Arm" -> UNCHANGED <<obj, wire, dec>>
           [] op.a = "Adopt" -> wire' = [wire EXCEPT ![op.syn] = op.bytes] /\ UNCHANGED <<obj, dec>>
           [] op.a \in {"Check", "Print", "EncodeCb", "EncodeBuf", "EncodeCbSweep", "AllocSweepEnc"} -> obj[op.slot].st # "none" /\ UNCHANGED <<obj, wire, dec>>
-          [] op.a = "AllocSweepDec" -> UNCHANGED <<obj, wire, dec>>
+          [] op.a \in {"AllocSweepDec", "TruncSweep"} -> UNCHANGED <<obj, wire, dec>>
           [] op.a = "Encode" -> IF Vouched(obj[op.slot])
                                 THEN Encode(op, obs.bytes)
                                 ELSE \* a structure the specification does not vouch for: the result is only logged
@@ -242,6 +245,10 @@ StrictFaults(op, ev) ==
               \cup When(\E i \in DOMAIN ev.runs : ev.runs[i].ret < 0 /\ ev.runs[i].buf, "buffer-returned-on-failure")
               \cup When(\E i \in DOMAIN ev.runs : ~ev.runs[i].fired /\ ev.runs[i].ret # ev.ret0, "result-differs-without-failure")
               \cup When(\E i \in DOMAIN ev.runs : ev.runs[i].leak # 0, "allocation-failure-leaks")
+    [] op.a = "TruncSweep" ->
+         When(\E i \in DOMAIN ev.runs : ev.runs[i].rc \notin {"OK", "FAIL", "WMORE"}, "bad-rc")
+         \cup When(\E i \in DOMAIN ev.runs : ev.runs[i].consumed > ev.runs[i].len, "consumed-exceeds-size")
+         \cup When(\E i \in DOMAIN ev.runs : ev.runs[i].leak # 0, "starved-decode-leaks")
     [] op.a = "AllocSweepDec" ->
          IF ev.rc # "OK" THEN {"rc-not-ok"}
          ELSE When(ev.consumed # Len(op.bytes), "consumed-differs")
